@@ -127,13 +127,29 @@ fn matrix_sites() -> Vec<MatrixSite> {
         v.push(MatrixSite { src: s("{% set q = U %}{{ q is defined }}"), class: "assign_then_is_defined", ok: [true; 4], out: "False" });
         v.push(MatrixSite { src: s("{% if U is defined %}a{% else %}b{% endif %}"), class: "is_defined", ok: [true; 4], out: "b" });
     }
+    // the value of an else-less conditional expression whose condition is false is an undefined too
+    // (printing, truth-testing and iterating it is exempt from errors in every mode, by design), and
+    // attribute, item and slice access on it must fail like on any other undefined
+    for (pre, sil) in [("", "(1 if false)"), ("", "(m if 0)"), ("{% set sv = 1 if false %}", "sv"), ("{% set sv = (m if false) %}", "sv")] {
+        let s = |t: &str| format!("{}{}", pre, t.replace('S', sil));
+        v.push(MatrixSite { src: s("[{{ S }}]"), class: "silent_print", ok: [true; 4], out: "[]" });
+        v.push(MatrixSite { src: s("{{ S is undefined }}"), class: "silent_is_undefined", ok: [true; 4], out: "True" });
+        v.push(MatrixSite { src: s("{{ S|default('d') }}"), class: "silent_default", ok: [true; 4], out: "d" });
+        v.push(MatrixSite { src: s("[{{ S.attr }}]"), class: "attr_of_silent_undefined", ok: [false, false, false, true], out: "[]" });
+        v.push(MatrixSite { src: s("[{{ S['k'] }}]"), class: "item_of_silent_undefined", ok: [false, false, false, true], out: "[]" });
+        v.push(MatrixSite { src: s("[{{ S[0] }}]"), class: "item_of_silent_undefined", ok: [false, false, false, true], out: "[]" });
+        v.push(MatrixSite { src: s("[{{ S.a.b }}]"), class: "attr_chain_of_silent_undefined", ok: [false, false, false, true], out: "[]" });
+        v.push(MatrixSite { src: s("[{{ S.attr|default('d') }}]"), class: "attr_of_silent_undefined_defaulted", ok: [false, false, false, true], out: "[d]" });
+        v.push(MatrixSite { src: s("[{{ S.attr is defined }}]"), class: "attr_of_silent_undefined_tested", ok: [false, false, false, true], out: "[False]" });
+        v.push(MatrixSite { src: s("{% macro f(a) %}[{{ a.attr is defined }}]{% endmacro %}{{ f(S) }}"), class: "attr_of_silent_undefined_in_macro", ok: [false, false, false, true], out: "[False]" });
+    }
     v
 }
 
 fn site_table(r: &reg::Registry) -> Vec<(String, String)> {
     // (family, source); only the monotonicity oracle applies
     let mut v = vec![];
-    let undefs = ["u", "m.nokey"];
+    let undefs = ["u", "m.nokey", "(1 if false)"];
     for f in &r.filters {
         for u in undefs {
             for form in [
